@@ -107,6 +107,12 @@ impl<C: Config, Q: Query> Snapshot<C, Q> {
             )
             .await;
 
+        // While its callees were being verified this query was found to lie
+        // on a dependency cycle: it cannot keep its previous value.
+        if lock_guard.query_computing().is_in_scc() {
+            return Some((lock_guard, self));
+        }
+
         let (repair_transitive_firewall_callees, cleaned_edges) =
             match recompute {
                 RepairDecision::Recompute => return Some((lock_guard, self)),
@@ -267,6 +273,14 @@ impl<C: Config, Q: Query> Snapshot<C, Q> {
             return CalleeCheckDecision::NoNeed;
         }
 
+        // A callee that was registered but never observed is the read that
+        // closed a dependency cycle in the previous run: there is nothing to
+        // compare against, the query has to run again.
+        let Some(observation) = forward_edge_observation.0.get(callee).copied()
+        else {
+            return CalleeCheckDecision::Recompute;
+        };
+
         let kind = engine.get_query_kind(callee).await;
 
         // NOTE: if the callee is an input (explicitly set), it's impossible
@@ -309,11 +323,7 @@ impl<C: Config, Q: Query> Snapshot<C, Q> {
                 unsafe { engine.get_node_info_unchecked(callee).await };
 
             let value_fingerprint_diff = callee_node_info.value_fingerprint()
-                != forward_edge_observation
-                    .0
-                    .get(callee)
-                    .unwrap()
-                    .seen_value_fingerprint;
+                != observation.seen_value_fingerprint;
 
             // if any of the callee's value fingerprint differs, we need to
             // recompute
@@ -325,11 +335,7 @@ impl<C: Config, Q: Query> Snapshot<C, Q> {
             if !kind.is_firewall() {
                 let tfc_fingerprint_diff = callee_node_info
                     .transitive_firewall_callees_fingerprint()
-                    != forward_edge_observation
-                        .0
-                        .get(callee)
-                        .unwrap()
-                        .seen_transitive_firewall_callees_fingerprint;
+                    != observation.seen_transitive_firewall_callees_fingerprint;
 
                 if tfc_fingerprint_diff {
                     repair_transitive_firewall_callees = true;
